@@ -30,7 +30,7 @@ func init() {
 				Run: func(c *Ctx, r *R) { ruleWgCount(c, r, "stream.Merge") }},
 			{ID: "C12.close-once", Floor: 3, Clause: "every sender.Close in the workers is dominated by a successful CAS on closeOnce or by the last-one-out test; cancel() precedes sender.Close(err); the error passed is the one the input returned",
 				Run: ruleMergeCloseOnce},
-			{ID: "C12.atomic-only", Floor: 6, Clause: "every variable that is passed to a sync/atomic function is accessed only through sync/atomic after its initialisation (repo-wide)",
+			{ID: "C12.atomic-only", Floor: 5, Clause: "every variable that is passed to a sync/atomic function is accessed only through sync/atomic after its initialisation (repo-wide)",
 				Run: ruleAtomicOnly},
 			{ID: "C12.merge-worker-shape", Floor: 3, Clause: "each stream.Merge worker forwards exactly the item it received from its own input: Send's argument is Next's result, End ends the worker without closing with an error",
 				Run: ruleMergeWorkerShape},
@@ -96,6 +96,11 @@ func ruleMergeArms(c *Ctx, r *R) {
 			ast.Inspect(&ast.BlockStmt{List: cc.Body}, func(m ast.Node) bool {
 				switch s := m.(type) {
 				case *ast.AssignStmt:
+					if s.Tok == token.ADD_ASSIGN && len(s.Rhs) == 1 {
+						if lit, ok := s.Rhs[0].(*ast.BasicLit); ok && lit.Value == "1" {
+							incs++
+						}
+					}
 					if len(s.Lhs) == 1 && len(s.Rhs) == 1 {
 						if id, ok := s.Rhs[0].(*ast.Ident); ok && id.Name == "nil" {
 							if l, ok := s.Lhs[0].(*ast.Ident); ok {
@@ -256,17 +261,23 @@ func ruleReplicateShape(c *Ctx, r *R) {
 	n := 0
 	good := true
 	var why []string
-	for _, op := range chanOpsOf(fn) {
-		switch op.kind {
-		case "range", "recv":
-			if op.arms[0].ch != ssa.Value(src) {
-				good = false
-				why = append(why, "receives from something other than src")
+	for _, di := range deepInstrs(fn, 2) {
+		switch x := di.in.(type) {
+		case *ssa.UnOp:
+			if x.Op == token.ARROW {
+				if argOf(x.X, di.calls) != ssa.Value(src) {
+					good = false
+					why = append(why, "receives from something other than src")
+				}
 			}
-		case "send":
+		case *ssa.Select:
+			good = false
+			why = append(why, "unexpected select")
+		case *ssa.Send:
 			n++
-			snd := op.in.(*ssa.Send)
-			ex, ok := snd.X.(*ssa.Extract)
+			// the value sent is the item received from src (possibly handed to a helper as an argument)
+			sent := argOf(x.X, di.calls)
+			ex, ok := sent.(*ssa.Extract)
 			if !ok {
 				good = false
 				why = append(why, "sends a value that is not the received item")
@@ -274,27 +285,26 @@ func ruleReplicateShape(c *Ctx, r *R) {
 				good = false
 				why = append(why, "sends a value not received from src")
 			}
-			ld, ok := snd.Chan.(*ssa.UnOp)
+			ld, ok := x.Chan.(*ssa.UnOp)
 			if !ok {
 				good = false
 				why = append(why, "destination is not an element of dsts")
-			} else if ia, ok := ld.X.(*ssa.IndexAddr); !ok || ia.X != ssa.Value(dsts) {
+			} else if ia, ok := ld.X.(*ssa.IndexAddr); !ok || argOf(ia.X, di.calls) != ssa.Value(dsts) {
 				good = false
 				why = append(why, "destination is not an element of dsts")
-			} else {
-				// index is the induction variable of a loop bounded by len(dsts), starting at 0 (range lowering: -1 then +1)
-				if !rangeOver(ia.Index, dsts) {
-					good = false
-					why = append(why, "the destination index does not range over all of dsts")
-				}
+			} else if !rangeOver(ia.Index, ia.X) {
+				good = false
+				why = append(why, "the destination index does not range over all of dsts")
 			}
-			if !reaches(snd.Block(), snd.Block()) {
+			if !reaches(x.Block(), x.Block()) {
 				good = false
 				why = append(why, "send is not inside a loop")
 			}
-		default:
-			good = false
-			why = append(why, "unexpected "+op.kind)
+			// and the whole fan-out happens once per received item: the site in Replicate is inside the receive loop
+			if !reaches(di.site.Block(), di.site.Block()) {
+				good = false
+				why = append(why, "the fan-out is not inside the loop over src")
+			}
 		}
 	}
 	r.ok(good && n == 1, "chans.Replicate|shape", fn.Pos(), "Replicate must send each item received from src to dsts[i] for every i: "+strings.Join(why, "; "))
@@ -410,21 +420,35 @@ func ruleMergeCloseOnce(c *Ctx, r *R) {
 			n++
 			key := "stream.Merge|worker-close#" + itoa(n)
 			casOK, lastOut, onceZero := false, false, false
+			var onceCell *ssa.Alloc
+			// the once flag is the variable some worker CASes 0→1
+			for _, g2 := range bi.all {
+				instrs(g2, func(_ *ssa.BasicBlock, _ int, y ssa.Instruction) {
+					if cc, ok := y.(*ssa.Call); ok {
+						if f := cc.Call.StaticCallee(); f != nil && f.Name() == "CompareAndSwapUint32" {
+							onceCell = cellOf(cc.Call.Args[0])
+						}
+					}
+				})
+			}
 			for _, gd := range guardsOf(b) {
 				if v, val := gd.boolVal(); val {
 					if cc, ok := v.(*ssa.Call); ok {
-						if f := cc.Call.StaticCallee(); f != nil && f.Name() == "CompareAndSwapUint32" && strings.Contains(path(cc.Call.Args[0]), "closeOnce") && isConstInt(cc.Call.Args[1], 0) && isConstInt(cc.Call.Args[2], 1) {
+						if f := cc.Call.StaticCallee(); f != nil && f.Name() == "CompareAndSwapUint32" && isConstInt(cc.Call.Args[1], 0) && isConstInt(cc.Call.Args[2], 1) {
 							casOK = true
+							onceCell = cellOf(cc.Call.Args[0])
 						}
 					}
 				}
 				if cf, ok := gd.asCmp(); ok && cf.op == token.EQL {
-					xs := path(cf.x)
-					if strings.Contains(xs, "AddUint32") && strings.Contains(xs, "nDone") && isLenOf(cf.y, bi.fn.Params[0]) {
-						lastOut = true
-					}
-					if strings.Contains(xs, "LoadUint32") && strings.Contains(xs, "closeOnce") && isConstInt(cf.y, 0) {
-						onceZero = true
+					// last one out: atomic.AddUint32(&counter, 1) == len(in)
+					if ac, ok := resolveVal(cf.x).(*ssa.Call); ok {
+						if f := ac.Call.StaticCallee(); f != nil && f.Name() == "AddUint32" && isConstInt(ac.Call.Args[1], 1) && isLenOf(cf.y, bi.fn.Params[0]) {
+							lastOut = true
+						}
+						if f := ac.Call.StaticCallee(); f != nil && f.Name() == "LoadUint32" && isConstInt(cf.y, 0) && onceCell != nil && cellOf(ac.Call.Args[0]) == onceCell {
+							onceZero = true
+						}
 					}
 				}
 			}
@@ -522,11 +546,20 @@ func ruleAtomicOnly(c *Ctx, r *R) {
 	for _, fn := range c.Funcs {
 		instrs(fn, func(b *ssa.BasicBlock, i int, in ssa.Instruction) {
 			cc := callCommon(in)
-			if cc == nil || !isAtomicFn(cc) || len(cc.Args) == 0 {
+			if cc == nil || len(cc.Args) == 0 {
 				return
 			}
-			if cell := cellOf(cc.Args[0]); cell != nil {
-				cells[cell] = true
+			if isAtomicFn(cc) {
+				if cell := cellOf(cc.Args[0]); cell != nil {
+					cells[cell] = true
+				}
+				return
+			}
+			// &x handed to a helper that uses its parameter atomically
+			for _, a := range cc.Args {
+				if cell := cellOf(a); cell != nil && paramOnlyAtomic(cc, a) {
+					cells[cell] = true
+				}
 			}
 		})
 	}
@@ -554,7 +587,7 @@ func ruleAtomicOnly(c *Ctx, r *R) {
 					switch x := in.(type) {
 					case *ssa.MakeClosure:
 					case *ssa.Call:
-						if !isAtomicFn(&x.Call) {
+						if !isAtomicFn(&x.Call) && !paramOnlyAtomic(&x.Call, *op) {
 							bad = "passed to non-atomic " + calleeName(&x.Call)
 						}
 					case *ssa.Store:
@@ -578,4 +611,44 @@ func ruleAtomicOnly(c *Ctx, r *R) {
 		check(owner)
 		r.ok(bad == "", key, cell.Pos(), "variable accessed with sync/atomic is also accessed without it: "+bad)
 	}
+}
+
+// paramOnlyAtomic: the call passes `arg` (a pointer) to an in-package function whose corresponding parameter is used
+// only as the address operand of sync/atomic functions.
+func paramOnlyAtomic(cc *ssa.CallCommon, arg ssa.Value) bool {
+	cal := staticCallee(cc)
+	if cal == nil || cal.Blocks == nil {
+		return false
+	}
+	idx := -1
+	for i, a := range cc.Args {
+		if a == arg {
+			idx = i
+		}
+	}
+	if idx < 0 || idx >= len(cal.Params) {
+		return false
+	}
+	p := cal.Params[idx]
+	if _, isPtr := p.Type().Underlying().(*types.Pointer); !isPtr {
+		return false
+	}
+	if p.Referrers() == nil || len(*p.Referrers()) == 0 {
+		return false
+	}
+	any := false
+	for _, ref := range *p.Referrers() {
+		switch x := ref.(type) {
+		case *ssa.DebugRef:
+		case *ssa.Call:
+			f := x.Call.StaticCallee()
+			if f == nil || f.Pkg == nil || f.Pkg.Pkg.Path() != "sync/atomic" {
+				return false
+			}
+			any = true
+		default:
+			return false
+		}
+	}
+	return any
 }
